@@ -88,7 +88,7 @@ Definition run_rec (ts : list bytes) : bytes :=
       | Some tys =>
         let leaf := map (fun tn => (fst tn, Entry (snd tn) [])) tys in
         let tb := if beqb style B"all" then map (fun tn => (fst tn, Entry (snd tn) leaf)) tys else leaf in
-        let fuel := 4000%nat in
+        let fuel := (check_fuel rootnode tb + 4000)%nat in
         let c := rec_check fuel rootname rootnode tb in
         B"check=" ++ match c with Ok true => B"104" | Ok false => B"ok" | Err e => B"err" ++ show_N e | Panic k => B"panic:" ++ show_pkind k end
         ++ B" ex=" ++ match c with
